@@ -208,7 +208,6 @@ class gre (packet_base):
         if self.csum is True:
             csum = checksum(r + payload)
             r = r[:4] + struct.pack("!H", csum) + r[4+2:]
-            self.csum = csum
         elif self.csum is not None:
             if checksum(r + payload) != 0:
                 self.msg('warning GRE checksum does not match')
